@@ -245,6 +245,297 @@ fn lattice_weight(pli: &[i128; 6], valid: bool, a: &[i64]) -> u64 {
 }
 fn planes_valid(pc: &PC, p: &[i128; 6]) -> bool { p[0] != p[1] && p[2] != p[3] && (pc.fam == Fam::OrthoXY || p[4] != p[5]) && (pc.fam != Fam::Frustum || p[4] != 0) }
 
+// ---------------------------------------------------------------------------------------------
+// float tiers (audit round): the real constructors instantiated at f32 and f64
+
+const C_SCALE: &str = "power-of-two-scaled-inputs-do-not-scale-the-matrix-exactly";
+
+/// the two float element types; everything the oracle does is done in f64 (f32 -> f64 is exact)
+trait Fl: Real + FloatConst + Debug + Send + Sync + 'static {
+    const NAME: &'static str;
+    const EPS: f64;
+    fn to64(self) -> f64;
+    fn of64(v: f64) -> Self;
+    /// 2^e, built from the bit pattern (normal range only)
+    fn pow2(e: i32) -> Self;
+}
+impl Fl for f64 {
+    const NAME: &'static str = "f64";
+    const EPS: f64 = f64::EPSILON;
+    fn to64(self) -> f64 { self }
+    fn of64(v: f64) -> f64 { v }
+    fn pow2(e: i32) -> f64 { assert!((-1022..=1023).contains(&e)); f64::from_bits(((e + 1023) as u64) << 52) }
+}
+impl Fl for f32 {
+    const NAME: &'static str = "f32";
+    const EPS: f64 = f32::EPSILON as f64;
+    fn to64(self) -> f64 { self as f64 }
+    fn of64(v: f64) -> f32 { let r = v as f32; assert!(r as f64 == v || !v.is_finite(), "alphabet value {} is not an f32", v); r }
+    fn pow2(e: i32) -> f32 { assert!((-126..=127).contains(&e)); f32::from_bits(((e + 127) as u32) << 23) }
+}
+fn m64<T: Fl>(m: &A<T, 4>) -> A<f64, 4> { let mut o = [[0.0f64; 4]; 4]; for i in 0..4 { for j in 0..4 { o[i][j] = m[i][j].to64(); } } o }
+/// forward error bound of a 4-term dot product of entries that carry a few roundings each, and one quotient
+fn near_enough(got: f64, want: f64, scale: f64, eps: f64) -> bool { !got.is_nan() && (got - want).abs() <= 256.0 * eps * scale }
+fn same_bits_or_both_zero(a: f64, b: f64) -> bool { a == b }
+/// matrix equality for the layout / mirror comparisons: a NaN entry is a defect of the constructor (reported by the corner
+/// check of the same matrix), not a difference between the two matrices compared here
+fn same_mat(a: &A<f64, 4>, b: &A<f64, 4>) -> bool { (0..16).all(|i| { let (x, y) = (a[i / 4][i % 4], b[i / 4][i % 4]); x == y || (x.is_nan() && y.is_nan()) }) }
+fn jm64(m: &A<f64, 4>) -> Value { json!(m.iter().map(|r| r.to_vec()).collect::<Vec<_>>()) }
+
+struct FFail { class: &'static str, ci: u64, corner: String, what: &'static str, got: f64, want: f64, clip: [f64; 4], point: [f64; 4] }
+/// float tier: the 8 corners (far corner of a frustum = near corner * (far/near)) through the decoded matrix, in f64;
+/// |ndc - want| <= 256 eps_T (sum|terms| / |w| + 1).  `depth`: None = x and y only
+fn check_corners_f(m: &A<f64, 4>, persp: bool, lh: bool, depth: Option<bool>, pl: &[f64; 6], eps: f64) -> Vec<FFail> {
+    let (l, r, b, t, n, f) = (pl[0], pl[1], pl[2], pl[3], pl[4], pl[5]);
+    let mut out = Vec::new();
+    let mut ci = 0u64;
+    for (far, d) in [(false, n), (true, f)] { for (sx, x) in [(-1.0f64, l), (1.0, r)] { for (sy, y) in [(-1.0f64, b), (1.0, t)] {
+        let z = if lh { d } else { -d };
+        let k = if persp && far { f / n } else { 1.0 };
+        let p = [x * k, y * k, z, 1.0];
+        let (mut clip, mut mag) = ([0.0f64; 4], [0.0f64; 4]);
+        for i in 0..4 { for j in 0..4 { let term = m[i][j] * p[j]; clip[i] += term; mag[i] += term.abs(); } }
+        let w = clip[3];
+        let label = format!("{}-{}-{}", if far { "far" } else { "near" }, if sx < 0.0 { "left" } else { "right" }, if sy < 0.0 { "bottom" } else { "top" });
+        let mut push = |class: &'static str, what: &'static str, got: f64, want: f64| out.push(FFail { class, ci, corner: label.clone(), what, got, want, clip, point: p });
+        if d > 0.0 && !(w > 0.0) { push(C_W, "w", w, 0.0); }
+        if w == 0.0 || !w.is_finite() { push(C_W0, "w", w, 1.0); ci += 1; continue; }
+        let wants = [(0usize, sx, C_X, "ndc.x"), (1, sy, C_Y, "ndc.y")];
+        for (i, want, class, what) in wants { let got = clip[i] / w; if !near_enough(got, want, mag[i] / w.abs() + 1.0, eps) { push(class, what, got, want); } }
+        if let Some(zo) = depth {
+            let want = depth_target(far, zo) as f64;
+            let got = clip[2] / w;
+            if !near_enough(got, want, mag[2] / w.abs() + 1.0, eps) { push(if far { C_FAR } else { C_NEAR }, "ndc.z", got, want); }
+        }
+        ci += 1;
+    } } }
+    out
+}
+
+/// how an entry of a plane constructor scales when (left,right,bottom,top) are multiplied by 2^e1 and (near,far) by 2^e2
+fn plane_scale_exp(fam: Fam, i: usize, j: usize, e1: i32, e2: i32) -> i32 {
+    match fam {
+        Fam::OrthoXY => match (i, j) { (0, 0) | (1, 1) => -e1, _ => 0 },
+        Fam::Ortho => match (i, j) { (0, 0) | (1, 1) => -e1, (2, 2) => -e2, _ => 0 },
+        Fam::Frustum => match (i, j) { (0, 0) | (1, 1) => e2 - e1, (2, 3) => e2, _ => 0 },
+    }
+}
+fn ordered_pairs_f(v: &[f64]) -> Vec<(f64, f64)> { let mut o = Vec::new(); for &a in v { for &b in v { if a != b { o.push((a, b)); } } } o }
+
+struct PlaneFloatAlphabet { xy: Vec<f64>, ortho_nf: Vec<f64>, frustum_nf: Vec<f64>, scales: Vec<(i32, i32)>, max_frustum_ratio: i32 }
+
+/// orthographic_* / frustum_* at element type T: corners with a derived bound at every scale, exact scaling law against
+/// the unscaled matrix, LH = RH * z mirror and layout equality bit for bit
+fn plane_float_tier<T: Fl>(s: &Section, al: &PlaneFloatAlphabet) {
+    s.require_classes(&["off-centre", "centred", "inverted-x", "inverted-y", "far<near", "orthographic-near<=0", "orthographic", "frustum", "orthographic_without_depth_planes", "unscaled", "xy-scaled-up", "xy-scaled-down", "depth-scaled-up", "depth-scaled-down", "xy-and-depth-scaled-opposite-ways"]);
+    let xy = ordered_pairs_f(&al.xy);
+    let mut sets: Vec<(bool, [f64; 6])> = Vec::new();
+    for &(l, r) in &xy { for &(b, t) in &xy {
+        for (n, f) in ordered_pairs_f(&al.ortho_nf) { sets.push((false, [l, r, b, t, n, f])); }
+        for (n, f) in ordered_pairs_f(&al.frustum_nf) { sets.push((true, [l, r, b, t, n, f])); }
+    } }
+    s.meta("alphabet", json!({"element_type": T::NAME, "xy_values": al.xy, "orthographic_near_far_values": al.ortho_nf, "frustum_near_far_values": al.frustum_nf, "plane_sets": sets.len(), "scale_exponents(e_xy, e_depth)": al.scales, "frustum_max_|e_depth - e_xy|": al.max_frustum_ratio}));
+    let coll = Coll::new();
+    sets.par_iter().enumerate().for_each(|(set_no, (is_frustum, pl))| {
+        let off = pl[0] + pl[1] != 0.0 || pl[2] + pl[3] != 0.0;
+        let (mut ev, mut nt) = (0u64, 0u64);
+        let mut cls: BTreeMap<&'static str, u64> = BTreeMap::new();
+        let mut cl = |c: &'static str| *cls.entry(c).or_insert(0) += 1;
+        cl(if off { "off-centre" } else { "centred" });
+        if pl[0] > pl[1] { cl("inverted-x"); }
+        if pl[2] > pl[3] { cl("inverted-y"); }
+        if pl[5] < pl[4] { cl("far<near"); }
+        if !is_frustum && pl[4] <= 0.0 { cl("orthographic-near<=0"); }
+        let wsum: f64 = pl.iter().map(|v| v.abs() * 2.0).sum();
+        // decoded[k][lay][scale]
+        let mut decoded: Vec<Vec<Vec<Option<A<f64, 4>>>>> = vec![vec![vec![None; al.scales.len()]; 2]; PLANE.len()];
+        for (k, pc) in PLANE.iter().enumerate() {
+            if (pc.fam == Fam::Frustum) != *is_frustum { continue; }
+            cl(match pc.fam { Fam::OrthoXY => "orthographic_without_depth_planes", Fam::Ortho => "orthographic", Fam::Frustum => "frustum" });
+            let site = format!("Mat4<{}>::{}", T::NAME, pc.name);
+            for lay in 0..2 {
+                let mut base: Option<A<T, 4>> = None;
+                for (si, &(e1, e2)) in al.scales.iter().enumerate() {
+                    if si == 0 { assert!(e1 == 0 && e2 == 0, "the first scale must be the unscaled one"); }
+                    if pc.fam == Fam::OrthoXY && e2 != 0 { continue; }
+                    if pc.fam == Fam::Frustum && (e2 - e1).abs() > al.max_frustum_ratio { continue; }
+                    if k == 1 || k == 5 { if lay == 0 {
+                        if e1 == 0 && e2 == 0 { cl("unscaled"); }
+                        if e1 > 0 { cl("xy-scaled-up"); } if e1 < 0 { cl("xy-scaled-down"); }
+                        if e2 > 0 { cl("depth-scaled-up"); } if e2 < 0 { cl("depth-scaled-down"); }
+                        if (e1 > 0 && e2 < 0) || (e1 < 0 && e2 > 0) { cl("xy-and-depth-scaled-opposite-ways"); }
+                    } }
+                    let (s1, s2) = (T::pow2(e1).to64(), T::pow2(e2).to64());
+                    let spl = [pl[0] * s1, pl[1] * s1, pl[2] * s1, pl[3] * s1, pl[4] * s2, pl[5] * s2];
+                    let tpl: [T; 6] = spl.map(T::of64);
+                    let inp = || json!({"layout": LAY[lay], "planes[l,r,b,t,n,f]": pl.to_vec(), "scaled_by_2^": [e1, e2]});
+                    let Some(mt) = s.call(&site, inp, || plane_mat::<T>(lay, k, tpl)) else { continue };
+                    if si == 0 { base = Some(mt); }
+                    let m = m64(&mt);
+                    decoded[k][lay][si] = Some(m);
+                    let w0 = (((wsum as u64) + if si == 0 { 0 } else { 1000 + si as u64 }) << 40) | ((set_no as u64) << 12) | ((lay as u64) << 4);
+                    let detail = |extra: Value| json!({"layout": LAY[lay], "element_type": T::NAME, "planes[l,r,b,t,n,f]": pl.to_vec(), "xy_planes_scaled_by_2^": e1, "near_far_scaled_by_2^": e2, "matrix": jm64(&m), "at": extra});
+                    // (a) the property itself, at this magnitude
+                    let hands: &[bool] = if pc.fam == Fam::OrthoXY { &[true, false] } else if pc.lh { &[true] } else { &[false] };
+                    for &lh in hands {
+                        ev += 8; if off { nt += 8; }
+                        for f in check_corners_f(&m, pc.fam == Fam::Frustum, lh, if pc.fam == Fam::OrthoXY { None } else { Some(pc.zo) }, &spl, T::EPS) {
+                            coll.push(&site, f.class, w0 | ((lh as u64) << 3) | f.ci, || detail(json!({"handedness_of_volume": if lh { "lh(+z)" } else { "rh(-z)" }, "corner": f.corner, "view_space_point": f.point.to_vec(), "clip": f.clip.to_vec(), "what": f.what, "got": f.got, "want": f.want})));
+                        }
+                    }
+                    // (b) scaling by a power of two is exact in binary floating point: every entry must be the unscaled entry times 2^k
+                    if si != 0 { if let Some(b) = &base {
+                        ev += 1; if off { nt += 1; }
+                        let mut bad = Vec::new();
+                        for i in 0..4 { for j in 0..4 {
+                            let want = (b[i][j] * T::pow2(plane_scale_exp(pc.fam, i, j, e1, e2))).to64();
+                            if !same_bits_or_both_zero(m[i][j], want) { bad.push(json!({"entry(row,col)": [i, j], "got": m[i][j], "want": want, "unscaled": b[i][j].to64()})); }
+                        } }
+                        if !bad.is_empty() { coll.push(&site, C_SCALE, w0, || detail(json!({"entries": bad, "unscaled_matrix": jm64(&m64(b))}))); }
+                    } }
+                }
+            }
+            // layouts agree bit for bit
+            for si in 0..al.scales.len() { if let (Some(r), Some(c)) = (decoded[k][0][si], decoded[k][1][si]) {
+                ev += 1; if off { nt += 1; }
+                if !same_mat(&r, &c) { coll.push(&site, C_LAYOUT, ((wsum as u64) << 40) | ((set_no as u64) << 12), || json!({"element_type": T::NAME, "planes[l,r,b,t,n,f]": pl.to_vec(), "scaled_by_2^": [al.scales[si].0, al.scales[si].1], "row_major": jm64(&r), "column_major": jm64(&c)})); }
+            } }
+        }
+        for (kl, kr) in PLANE_PAIRS { for lay in 0..2 { for si in 0..al.scales.len() {
+            let (Some(l), Some(r)) = (decoded[kl][lay][si], decoded[kr][lay][si]) else { continue };
+            ev += 1; if off { nt += 1; }
+            let mut mirrored = r; for i in 0..4 { mirrored[i][2] = -r[i][2]; }
+            if !same_mat(&l, &mirrored) { coll.push(&format!("Mat4<{}>::{}<->{}", T::NAME, PLANE[kl].name, PLANE[kr].name), C_MIRROR, ((wsum as u64) << 40) | ((set_no as u64) << 12) | lay as u64, || json!({"layout": LAY[lay], "element_type": T::NAME, "planes[l,r,b,t,n,f]": pl.to_vec(), "scaled_by_2^": [al.scales[si].0, al.scales[si].1], "lh": jm64(&l), "rh": jm64(&r)})); }
+        } } }
+        s.evals(ev, nt);
+        for (c, n) in cls { s.class_n(c, n); }
+        if set_no == sets.len() / 2 + 1 { s.sample(json!({"element_type": T::NAME, "planes[l,r,b,t,n,f]": pl.to_vec(), "scales": al.scales.len(), "checked": "8 corners with |ndc - want| <= 256 eps (sum|terms|/|w| + 1) at every scale; matrix(2^e * planes) == 2^k * matrix(planes) bit for bit; lh == rh * z mirror; layouts equal"})); }
+    });
+    coll.flush(s);
+}
+
+struct FovFloatAlphabet { fovs: Vec<f64>, e_nf: Vec<i32>, e_wh: Vec<i32> }
+
+/// perspective family at element type T
+fn fov_float_tier<T: Fl>(s: &Section, al: &FovFloatAlphabet) {
+    s.require_classes(&["fov<pi/2", "pi/2<fov<pi", "fov>pi", "perspective", "perspective_fov", "tweaked_infinite", "infinite", "unscaled", "near-far-scaled-up", "near-far-scaled-down", "viewport-scaled-up", "viewport-scaled-down"]);
+    let aspects = [0.5f64, 1.0, 16.0 / 9.0];
+    let nfs = [(0.1f64, 100.0f64), (1.0, 2.0), (0.5, 1000.0)];
+    assert!(al.e_nf[0] == 0 && al.e_wh[0] == 0, "the first scale must be the unscaled one");
+    s.meta("alphabet", json!({"element_type": T::NAME, "fovs": al.fovs.len(), "fov_min": al.fovs.iter().cloned().fold(f64::INFINITY, f64::min), "fov_max": al.fovs.iter().cloned().fold(0.0, f64::max), "aspects_or_sizes": aspects, "near_far": nfs.iter().map(|p| vec![p.0, p.1]).collect::<Vec<_>>(), "near_far_scale_exponents": al.e_nf, "width_height_scale_exponents": al.e_wh}));
+    let coll = Coll::new();
+    al.fovs.par_iter().enumerate().for_each(|(fi, &fov_in)| {
+        let fov_t = T::of64(if T::NAME == "f32" { (fov_in as f32) as f64 } else { fov_in });
+        let fov = fov_t.to64();
+        let t = (fov * 0.5).tan();
+        let (mut ev, mut nt) = (0u64, 0u64);
+        let mut cls: BTreeMap<&'static str, u64> = BTreeMap::new();
+        let mut cl = |c: &'static str| *cls.entry(c).or_insert(0) += 1;
+        cl(if fov < std::f64::consts::FRAC_PI_2 { "fov<pi/2" } else if fov < std::f64::consts::PI { "pi/2<fov<pi" } else { "fov>pi" });
+        let mut case_no = 0u64;
+        for (k, fc) in FOVC.iter().enumerate() {
+            let site = format!("Mat4<{}>::{}", T::NAME, fc.name);
+            cl(match fc.kind { Kind::Persp => "perspective", Kind::PerspFov => "perspective_fov", Kind::Tweaked => "tweaked_infinite", Kind::Infinite => "infinite" });
+            // (unscaled args in f64 - all exactly representable in T after rounding -, index of near, indices scaled by e_wh, multiples of near, eps)
+            let r = |v: f64| if T::NAME == "f32" { (v as f32) as f64 } else { v };
+            let mut arglists: Vec<([f64; 5], bool, f64)> = Vec::new(); // args, has far, eps
+            match fc.kind {
+                Kind::Persp => for a in aspects { for (n, f) in nfs { arglists.push(([fov, r(a), r(n), r(f), 0.0], true, 0.0)); } },
+                Kind::PerspFov => for w in aspects { for h in aspects { for (n, f) in nfs { arglists.push(([fov, r(w), r(h), r(n), r(f)], true, 0.0)); } } },
+                Kind::Tweaked => for a in aspects { for (n, _) in nfs { for e in [0.0, 1.0 / 1024.0] { arglists.push(([fov, r(a), r(n), e, 0.0], false, e)); } } },
+                Kind::Infinite => for a in aspects { for (n, _) in nfs { arglists.push(([fov, r(a), r(n), 0.0, 0.0], false, 0.0)); } },
+            }
+            let e_wh: &[i32] = if fc.kind == Kind::PerspFov { &al.e_wh } else { &[0] };
+            for (args0, has_far, eps) in arglists {
+                let (aspect, ni) = if fc.kind == Kind::PerspFov { (args0[1] / args0[2], 3usize) } else { (args0[1], 2usize) };
+                for lay in 0..2 {
+                    let mut base: Option<A<T, 4>> = None;
+                    for (s2i, &e2) in al.e_nf.iter().enumerate() { for (s1i, &e1) in e_wh.iter().enumerate() {
+                        let unscaled = s2i == 0 && s1i == 0;
+                        if lay == 0 && (k == 0 || k == 4) {
+                            if unscaled { cl("unscaled"); }
+                            if e2 > 0 { cl("near-far-scaled-up"); } if e2 < 0 { cl("near-far-scaled-down"); }
+                            if e1 > 0 { cl("viewport-scaled-up"); } if e1 < 0 { cl("viewport-scaled-down"); }
+                        }
+                        let (s1, s2) = (T::pow2(e1).to64(), T::pow2(e2).to64());
+                        let mut args = args0;
+                        args[ni] *= s2; if has_far { args[ni + 1] *= s2; }
+                        if fc.kind == Kind::PerspFov { args[1] *= s1; args[2] *= s1; }
+                        let targs: [T; 5] = args.map(T::of64);
+                        let (near, far) = (args[ni], if has_far { args[ni + 1] } else { 0.0 });
+                        let inp = || json!({"layout": LAY[lay], "args": args0.to_vec(), "near_far_scaled_by_2^": e2, "width_height_scaled_by_2^": e1});
+                        let Some(mt) = s.call(&site, inp, || fov_mat::<T>(lay, k, targs)) else { continue };
+                        if unscaled { base = Some(mt); }
+                        let m = m64(&mt);
+                        case_no += 1;
+                        let wgt = (((fi as u64) + if unscaled { 0 } else { 100_000 }) << 36) | (case_no << 8);
+                        let detail = |extra: Value| json!({"layout": LAY[lay], "element_type": T::NAME, "args": args.to_vec(), "near_far_scaled_by_2^": e2, "width_height_scaled_by_2^": e1, "tan(fov/2) (oracle, f64)": t, "matrix": jm64(&m), "at": extra});
+                        // (a) corners
+                        let dists: Vec<f64> = if has_far { vec![near, far] } else { vec![near, 2.0 * near, 5.0 * near, 100.0 * near] };
+                        for (di, &d) in dists.iter().enumerate() {
+                            let want_depth = if has_far { depth_target(di == 1, fc.zo) as f64 } else { (1.0 - eps) - (2.0 - eps) * near / d };
+                            for (ci, (sx, sy)) in [(-1.0f64, -1.0f64), (-1.0, 1.0), (1.0, -1.0), (1.0, 1.0)].into_iter().enumerate() {
+                                ev += 1; nt += 1;
+                                let p = [sx * t * aspect * d, sy * t * d, if fc.lh { d } else { -d }, 1.0];
+                                let (mut clip, mut mag) = ([0.0f64; 4], [0.0f64; 4]);
+                                for i in 0..4 { for j in 0..4 { let term = m[i][j] * p[j]; clip[i] += term; mag[i] += term.abs(); } }
+                                let w = clip[3];
+                                let wc = wgt | ((di as u64) << 4) | ((ci as u64) << 2);
+                                let at = |what: &str, got: f64, want: f64| json!({"distance": d, "corner": [sx, sy], "view_space_point": p.to_vec(), "clip": clip.to_vec(), "what": what, "got": got, "want": want});
+                                if !(w > 0.0) { coll.push(&site, C_W, wc, || detail(at("w", w, 0.0))); continue; }
+                                for (i, want, class) in [(0usize, sx, C_X), (1, sy, C_Y), (2, want_depth, if di == 0 { C_NEAR } else if has_far { C_FAR } else { C_INF })] {
+                                    let got = clip[i] / w;
+                                    if !near_enough(got, want, mag[i] / w + 1.0, T::EPS) { coll.push(&site, class, wc | i as u64, || detail(at(["ndc.x", "ndc.y", "ndc.z"][i], got, want))); }
+                                }
+                            }
+                        }
+                        // (b) exact scaling law: only entry (2,3) depends on the magnitude of near/far, nothing on that of width/height
+                        if !unscaled { if let Some(b) = &base {
+                            ev += 1; nt += 1;
+                            let mut bad = Vec::new();
+                            for i in 0..4 { for j in 0..4 {
+                                let want = (b[i][j] * T::pow2(if (i, j) == (2, 3) { e2 } else { 0 })).to64();
+                                if m[i][j] != want { bad.push(json!({"entry(row,col)": [i, j], "got": m[i][j], "want": want, "unscaled": b[i][j].to64()})); }
+                            } }
+                            if !bad.is_empty() { coll.push(&site, C_SCALE, wgt, || detail(json!({"entries": bad, "unscaled_matrix": jm64(&m64(b))}))); }
+                        } }
+                        // (c) a perspective matrix is the frustum matrix of the implied planes (planes by the oracle in f64, rounded to T)
+                        if has_far {
+                            ev += 1; nt += 1;
+                            let (top, right) = (near * t, near * t * aspect);
+                            let plt: [T; 6] = [-right, right, -top, top, near, far].map(|v| <T as num_traits::NumCast>::from(v).unwrap());
+                            if let Some(fr) = s.call(&site, inp, || plane_mat::<T>(lay, frustum_index(fc.lh, fc.zo), plt)) {
+                                let fr = m64(&fr);
+                                let mut bad = Vec::new();
+                                for i in 0..4 { for j in 0..4 { let (g, w) = (m[i][j], fr[i][j]); if !((w == 0.0 && g == 0.0) || near_enough(g, w, w.abs(), T::EPS)) { bad.push(json!({"entry(row,col)": [i, j], "got": g, "frustum": w})); } } }
+                                if !bad.is_empty() { coll.push(&site, C_FRUSTUM, wgt, || detail(json!({"entries": bad, "implied_planes[l,r,b,t,n,f]": [-right, right, -top, top, near, far], "frustum_matrix": jm64(&fr)}))); }
+                            }
+                        }
+                        // (d) LH = RH * z mirror, bit for bit (evaluated from the left-handed member)
+                        if let Some(&(_, kr)) = FOV_PAIRS.iter().find(|p| p.0 == k) {
+                            ev += 1; nt += 1;
+                            if let Some(rt) = s.call(&format!("Mat4<{}>::{}", T::NAME, FOVC[kr].name), inp, || fov_mat::<T>(lay, kr, targs)) {
+                                let rr = m64(&rt);
+                                let mut mirrored = rr; for i in 0..4 { mirrored[i][2] = -rr[i][2]; }
+                                if !same_mat(&m, &mirrored) { coll.push(&format!("Mat4<{}>::{}<->{}", T::NAME, fc.name, FOVC[kr].name), C_MIRROR, wgt, || detail(json!({"rh": jm64(&rr)}))); }
+                            }
+                        }
+                        // (e) layouts agree bit for bit (evaluated from the column-major member)
+                        if lay == 1 {
+                            ev += 1; nt += 1;
+                            if let Some(rt) = s.call(&site, inp, || fov_mat::<T>(0, k, targs)) { let rr = m64(&rt); if !same_mat(&rr, &m) { coll.push(&site, C_LAYOUT, wgt, || detail(json!({"row_major": jm64(&rr)}))); } }
+                        }
+                    } }
+                }
+            }
+        }
+        s.evals(ev, nt);
+        for (c, n) in cls { s.class_n(c, n); }
+        if fi == al.fovs.len() / 3 { s.sample(json!({"element_type": T::NAME, "fov": fov, "tan(fov/2)": t, "constructors": 12, "layouts": 2, "near_far_scales": al.e_nf, "width_height_scales": al.e_wh, "bound": "256*eps_T*(sum|terms|/|w| + 1); scaling law, lh/rh mirror and layouts bit for bit; frustum of implied planes entrywise within 256 eps_T relative"})); }
+    });
+    coll.flush(s);
+}
+
 fn main() {
     let rep = Report::start("C08", "exploration");
     let th = rep.thorough();
@@ -413,14 +704,16 @@ fn main() {
 
     // ---------------------------------------------------------------------------------------------
     // perspective family: exact, with angle tokens whose half angle has a rational tangent
-    let fov_tokens: Vec<(i128, i128, i128)> = if th { vec![(1, 10, 1), (1, 5, 2), (1, 3, 1), (1, 2, 1), (2, 3, 1), (1, 5, 1), (1, 4, 1), (3, 4, 1), (9, 10, 1), (1, 7, 3), (1, 100, 1)] } else { vec![(1, 10, 1), (1, 5, 2), (1, 3, 1), (1, 2, 1), (2, 3, 1)] };
-    let aspects: Vec<X> = if th { vec![q(1, 2), qi(1), q(16, 9), q(4, 3), qi(3)] } else { vec![q(1, 2), qi(1), q(16, 9)] };
-    let persp_nf: Vec<X> = if th { vec![q(1, 10), qi(1), qi(2), qi(5), qi(1000)] } else { vec![qi(1), qi(2), qi(5)] };
+    // audit: the last tokens of each list have pi < fov < 2 pi (allowed by the debug_assert!s: tan(fov/2) < 0, the implied
+    // volume is inverted), the aspect list reaches 1/100 and 100, near/far reach a ratio of 1025/1024 and of 2^40
+    let fov_tokens: Vec<(i128, i128, i128)> = if th { vec![(1, 10, 1), (1, 5, 2), (1, 3, 1), (1, 2, 1), (2, 3, 1), (1, 5, 1), (1, 4, 1), (3, 4, 1), (9, 10, 1), (1, 7, 3), (1, 100, 1), (2, 1, 1), (3, 1, 1), (3, 2, 1), (10, 1, 1)] } else { vec![(1, 10, 1), (1, 5, 2), (1, 3, 1), (1, 2, 1), (2, 3, 1), (2, 1, 1), (3, 1, 1)] };
+    let aspects: Vec<X> = if th { vec![q(1, 2), qi(1), q(16, 9), q(4, 3), qi(3), q(1, 100), qi(100)] } else { vec![q(1, 2), qi(1), q(16, 9), q(1, 100)] };
+    let persp_nf: Vec<X> = if th { vec![q(1, 1 << 20), q(1, 10), qi(1), q(1025, 1024), qi(2), qi(5), qi(1000), qi(1 << 20)] } else { vec![qi(1), q(1025, 1024), qi(2), qi(5)] };
     let epsilons: Vec<X> = if th { vec![qi(0), q(1, 1024), q(1, 16)] } else { vec![qi(0), q(1, 1024)] };
     let inf_mult: [i128; 4] = [1, 2, 5, 100];
     rep.section("perspective, perspective_fov, (tweaked_)infinite_perspective: exact, fov with rational tan(fov/2)",
-        &format!("fov = 2k*arg(z_t) for (t_num, t_den, k) in {:?} (z_t = ((1-t^2)/(1+t^2), 2t/(1+t^2)); 0 < fov < pi; tan(fov/2) is an exact rational) x aspect in {:?} (perspective_fov: width, height both from that set, aspect = width/height) x (near,far) in pairs near<far of {:?} (the debug_assert!s are preconditions) x 2 layouts.  Implied planes: top = near*tan(fov/2), bottom = -top, right = top*aspect, left = -right.  For the 8 perspective/perspective_fov constructors: 8 corners -> (+-1, +-1, near -> 0|-1, far -> 1), w > 0; matrix == frustum_<same suffix> of the implied planes entry by entry; LH == RH with column 2 negated.  For the 4 infinite constructors (epsilon in {:?}; infinite_* = epsilon 0): the near rectangle scaled to distance d = m*near, m in {:?}, maps to x,y = +-1, depth (1-eps) - (2-eps)*near/d (so near -> -1, limit 1-eps), w > 0; LH == RH with column 2 negated.  one evaluation per corner / per matrix equality; non-trivial: aspect != 1", fov_tokens, aspects, persp_nf, epsilons, inf_mult), true, false, |s| {
-        s.require_classes(&["perspective", "perspective_fov", "tweaked_infinite(eps!=0)", "tweaked_infinite(eps=0)", "infinite", "aspect!=1", "aspect=1", "width!=height", "lh", "rh", "zero_to_one", "negative_one_to_one", "fov<pi/2", "fov>pi/2"]);
+        &format!("fov = 2k*arg(z_t) for (t_num, t_den, k) in {:?} (z_t = ((1-t^2)/(1+t^2), 2t/(1+t^2)); 0 < fov < 2 pi; tan(fov/2) is an exact rational) x aspect in {:?} (perspective_fov: width, height both from that set, aspect = width/height) x (near,far) in pairs near<far of {:?} (the debug_assert!s are preconditions) x 2 layouts; the tokens with tan(fov/2) < 0 are fields of view in (pi, 2 pi), which the preconditions allow: the implied planes are then inverted (top < bottom) and the same identities are claimed.  Implied planes: top = near*tan(fov/2), bottom = -top, right = top*aspect, left = -right.  For the 8 perspective/perspective_fov constructors: 8 corners -> (+-1, +-1, near -> 0|-1, far -> 1), w > 0; matrix == frustum_<same suffix> of the implied planes entry by entry; LH == RH with column 2 negated.  For the 4 infinite constructors (epsilon in {:?}; infinite_* = epsilon 0): the near rectangle scaled to distance d = m*near, m in {:?}, maps to x,y = +-1, depth (1-eps) - (2-eps)*near/d (so near -> -1, limit 1-eps), w > 0; LH == RH with column 2 negated.  one evaluation per corner / per matrix equality; non-trivial: aspect != 1", fov_tokens, aspects, persp_nf, epsilons, inf_mult), true, false, |s| {
+        s.require_classes(&["perspective", "perspective_fov", "tweaked_infinite(eps!=0)", "tweaked_infinite(eps=0)", "infinite", "aspect!=1", "aspect=1", "width!=height", "lh", "rh", "zero_to_one", "negative_one_to_one", "fov<pi/2", "fov>pi/2", "fov>pi(tan<0, inverted implied volume)", "aspect<=1/100", "far/near<=1025/1024"]);
         let nf_pairs: Vec<(X, X)> = ordered_pairs(&persp_nf).into_iter().filter(|(n, f)| n < f).collect();
         s.meta("alphabet", json!({"fov_tokens": fov_tokens.len(), "aspects": aspects.len(), "near_far_pairs": nf_pairs.len(), "epsilons": epsilons.len(), "infinite_depth_multiples": inf_mult}));
         let mut case_no = 0u64;
@@ -428,7 +721,7 @@ fn main() {
             let b = angle_base_t(tn, td);
             let (fov, half) = (X::tok(b, 2 * kk), X::tok(b, kk));
             let (sn, cs) = half.sin_cos_q();
-            assert!(sn.n > 0 && cs.n > 0, "half angle must be in (0, pi/2)");
+            assert!(sn.n > 0 && cs.n != 0, "half angle must be in (0, pi) and not pi/2");
             let tan = X::R(sn.div(cs));
             let fov_json = json!({"fov": format!("{}*2*atan({}/{})", 2 * kk, tn, td), "tan(fov/2)": jx(tan), "fov_degrees~": fov.shadow().to_degrees()});
             for (k, fc) in FOVC.iter().enumerate() {
@@ -447,7 +740,9 @@ fn main() {
                     s.class(if nontriv { "aspect!=1" } else { "aspect=1" });
                     if fc.kind == Kind::PerspFov && args[1] != args[2] { s.class("width!=height"); }
                     s.class(if fc.lh { "lh" } else { "rh" }); s.class(if fc.zo { "zero_to_one" } else { "negative_one_to_one" });
-                    s.class(if tan < qi(1) { "fov<pi/2" } else { "fov>pi/2" });
+                    s.class(if tan < qi(0) { "fov>pi(tan<0, inverted implied volume)" } else if tan < qi(1) { "fov<pi/2" } else { "fov>pi/2" });
+                    if aspect <= q(1, 100) { s.class("aspect<=1/100"); }
+                    if far != qi(0) && far / near <= q(1025, 1024) { s.class("far/near<=1025/1024"); }
                     let top = near * tan; let right = top * aspect;
                     let argj = match fc.kind {
                         Kind::Persp => json!({"fov_y": fov_json, "aspect": jx(args[1]), "near": jx(near), "far": jx(far)}),
@@ -574,6 +869,41 @@ fn main() {
         });
         coll.flush(s);
     });
+
+    // ---------------------------------------------------------------------------------------------
+    // audit round: the plane-taking constructors had never been instantiated at a float type
+    let mk_plane_alpha = |f32_: bool| -> PlaneFloatAlphabet {
+        let (a, b, c, d) = if f32_ { (40, 100, 120, 55) } else { (400, 1000, 1000, 500) }; // |e_xy| <= c, |e_depth| <= d
+        let scales: Vec<(i32, i32)> = if th {
+            let e1s: Vec<i32> = if f32_ { vec![0, 15, -15, 40, -40, 80, -80, 120, -120] } else { vec![0, 150, -150, 400, -400, 700, -700, 1000, -1000] };
+            let e2s: Vec<i32> = if f32_ { vec![0, 15, -15, 40, -40, 55, -55] } else { vec![0, 150, -150, 400, -400, 500, -500] };
+            let mut v = Vec::new(); for &e2 in &e2s { for &e1 in &e1s { v.push((e1, e2)); } } v
+        } else { vec![(0, 0), (a, a), (-a, -a), (a, -a), (-a, a), (b, 0), (-b, 0), (0, d), (0, -d), (c, d), (-c, -d)] };
+        PlaneFloatAlphabet {
+            xy: if th { vec![-3.0, -2.0, -1.0, -0.5, 1.0, 1.5, 3.0] } else { vec![-3.0, -1.0, -0.5, 1.0, 1.5] },
+            ortho_nf: if th { vec![-2.0, -1.0, 0.0, 0.5, 2.0, 5.0] } else { vec![-2.0, 0.0, 0.5, 5.0] },
+            frustum_nf: if th { vec![0.5, 1.0, 2.0, 5.0, 100.0] } else { vec![0.5, 2.0, 100.0] },
+            scales, max_frustum_ratio: if f32_ { 110 } else { 1000 },
+        }
+    };
+    let plane_rule = |ty: &str, al: &PlaneFloatAlphabet| format!("element type {}: (left,right) and (bottom,top): all ordered pairs of distinct values of {:?}; (near,far): all ordered pairs of distinct values of {:?} for orthographic_* and of {:?} for frustum_* (all dyadic, so sums and differences of planes are exact) x the (e_xy, e_depth) in {:?}: (left,right,bottom,top) multiplied by 2^e_xy and (near,far) by 2^e_depth (frustum_*: only |e_depth - e_xy| <= {}, the entry 2 near/(right-left) must stay finite and normal; orthographic_without_depth_planes: e_depth = 0 only) x 9 constructors x 2 layouts.  (a) the 8 corners of the scaled volume through the decoded matrix in f64: |ndc - want| <= 256 eps_{} (sum|terms|/|w| + 1), w > 0 for corners at positive distance; (b) power-of-two scaling is exact in binary floating point while nothing overflows or goes subnormal, and the constructors' own intermediates (at most near*far*2) stay in range on this alphabet: every entry must equal the unscaled entry times 2^k bit for bit, k = -e_xy for (0,0),(1,1) and -e_depth for (2,2) of orthographic_*, e_depth - e_xy for (0,0),(1,1) and e_depth for (2,3) of frustum_*, 0 elsewhere; (c) left-handed == right-handed with column 2 negated, and the two layouts, bit for bit at every scale.  one evaluation per corner / per matrix identity; non-trivial: volume not centred on the axis", ty, al.xy, al.ortho_nf, al.frustum_nf, al.scales, al.max_frustum_ratio, ty);
+    { let al = mk_plane_alpha(false); rep.section("orthographic+frustum, f64 tier: off-centre volumes at magnitudes 2^-1000 .. 2^1000", &plane_rule("f64", &al), true, false, |s| plane_float_tier::<f64>(s, &al)); }
+    { let al = mk_plane_alpha(true); rep.section("orthographic+frustum, f32 tier: off-centre volumes at magnitudes 2^-120 .. 2^120", &plane_rule("f32", &al), true, false, |s| plane_float_tier::<f32>(s, &al)); }
+
+    // ---------------------------------------------------------------------------------------------
+    // audit round: perspective family at f32 and at extreme magnitudes, fov beyond pi, float forms of the two matrix equalities
+    let mk_fov_alpha = |f32_: bool| -> FovFloatAlphabet {
+        let n: usize = if th { 128 } else { 24 };
+        let mut fovs: Vec<f64> = (0..n).map(|i| 0.05 + i as f64 * 3.04 / (n - 1) as f64).collect();
+        let beyond: &[f64] = if th { &[3.2, 3.5, 4.0, 4.5, 5.0, 5.5, 6.0, 6.2] } else { &[3.5, 4.5, 5.5, 6.0] };
+        fovs.extend_from_slice(beyond);
+        FovFloatAlphabet { fovs,
+            e_nf: if f32_ { if th { vec![0, 13, -13, 27, -27, 40, -40, 55, -55] } else { vec![0, 40, -40, 55, -55] } } else if th { vec![0, 100, -100, 250, -250, 400, -400, 500, -500] } else { vec![0, 400, -400, 500, -500] },
+            e_wh: if f32_ { if th { vec![0, 13, -13, 40, -40, 70, -70, 100, -100] } else { vec![0, 40, -40, 100, -100] } } else if th { vec![0, 100, -100, 400, -400, 700, -700, 1000, -1000] } else { vec![0, 400, -400, 1000, -1000] } }
+    };
+    let fov_rule = |ty: &str, al: &FovFloatAlphabet| format!("element type {}: fov = 0.05 + i*3.04/{} for i in 0..{} (inside (0, pi)) and {} values in (pi, 2 pi) (allowed by the preconditions; tan(fov/2) < 0), rounded to {} x aspect (or width/height pairs) from {{0.5, 1, 16/9}} x (near, far) in {{(0.1, 100), (1, 2), (0.5, 1000)}} (rounded to {}) x epsilon in {{0, 2^-10}} x (near, far) multiplied by 2^e, e in {:?} x (perspective_fov only) (width, height) multiplied by 2^e, e in {:?} x 12 constructors x 2 layouts.  (a) corners implied by t = tan(fov/2) (oracle, libm, f64, from the rounded fov): |ndc - want| <= 256 eps_{} (sum|terms|/|w| + 1), w > 0 (infinite constructors: near rectangle scaled to 1, 2, 5, 100 times near, depth (1-eps) - (2-eps)*near/d); (b) bit for bit: matrix(scaled args) == matrix(args) except entry (2,3), which is multiplied by 2^e(near,far) (exact while nothing overflows or goes subnormal; the constructors' own intermediates, at most 2*far*near and h*height, stay in range on this alphabet); (c) perspective_* / perspective_fov_* against the real frustum_* of the implied planes (top = near*t, right = top*aspect, computed in f64, rounded to {}): entrywise |difference| <= 256 eps_{} |entry|, zero entries exactly zero; (d) left-handed == right-handed with column 2 negated, (e) the two layouts, bit for bit.  one evaluation per corner / per matrix identity; non-trivial: all", ty, al.fovs.len() - if th { 8 } else { 4 } - 1, al.fovs.len() - if th { 8 } else { 4 }, if th { 8 } else { 4 }, ty, ty, al.e_nf, al.e_wh, ty, ty, ty);
+    { let al = mk_fov_alpha(false); rep.section("perspective family, f64 tier at magnitudes 2^-500 .. 2^500 (sizes 2^-1000 .. 2^1000), fov up to 2 pi, matrix equalities", &fov_rule("f64", &al), true, false, |s| fov_float_tier::<f64>(s, &al)); }
+    { let al = mk_fov_alpha(true); rep.section("perspective family, f32 tier at magnitudes 2^-55 .. 2^55 (sizes 2^-100 .. 2^100), fov up to 2 pi, matrix equalities", &fov_rule("f32", &al), true, false, |s| fov_float_tier::<f32>(s, &al)); }
 
     std::process::exit(rep.finish());
 }
